@@ -71,8 +71,22 @@ def dn_unit(prop, subset=None):
     """Run the DistinguishedName Verus unit; returns (obs, unit_res, verifier_outputs)."""
     ur = engine_v.run_unit("dn", canary=("d: DistinguishedName", "d.wf()"))
     wanted = [w for w in DN_WANTED if subset is None or w[0] in subset]
-    obs = engine_v.obligations(prop, ur, wanted)
     outs = {}
+    if ur["status"] == "undecided":
+        # the unit could not be assembled or Verus could not process it (lost item / derive, unsupported construct):
+        # undecided as a whole — unless the real code demonstrably disagrees with the abstract model
+        found, out = dn_counterexample()
+        ob = Ob(prop + ".dn.unit", "V", "proof", "verus / z3", UNDECIDED, 0,
+                "the DistinguishedName unit cannot be verified on this tree: %s" % (ur.get("detail") or ur.get("stderr", "")[:300]),
+                functions=[f for w in wanted for f in w[2]])
+        if found:
+            ob.status = FAILED
+            ob.signature = "model disagreement on a concrete history"
+            ob.replay = {"kind": "dn_ops", "input": found}
+            ob.detail += " — and the bounded replay search found a concrete input on which the real code violates the contract"
+            outs[ob.id] = (ur.get("detail") or "") + "\n" + (ur.get("stderr") or "") + "\n" + json.dumps(out)[:1500]
+        return [ob], ur, outs
+    obs = engine_v.obligations(prop, ur, wanted)
     bad = [o for o in obs if o.status in (FAILED, UNDECIDED)]
     if bad:
         found, out = dn_counterexample()
@@ -84,9 +98,6 @@ def dn_unit(prop, subset=None):
                     o.status = FAILED
                     o.signature = o.signature or "model disagreement on a concrete history"
                     o.detail += " — concrete failing history found by the bounded replay search"
-        if found and ur["status"] == "undecided":
-            # lost anchor (e.g. a derive disappeared) but the real code demonstrably disagrees with the model
-            pass
     if ur["status"] == "verified":
         if ur["canary_ok"] is False:
             obs.append(Ob(prop + ".dn.vacuity_canary", "V", "scan", "verus/z3", UNDECIDED, 0, "canary `requires d.wf() ensures false` verified: assumptions are contradictory"))
